@@ -77,11 +77,9 @@ theorem getStored_some (s : DeSt) (k : Kind) (id tid : Nat) (q : Ptr)
       rw [h, ht]
     · cases h
 
-theorem popCtx_store (s : DeSt) (a : Nat) : (popCtx s a).store = s.store := by
-  unfold popCtx; split <;> rfl
+theorem popCtx_store (s : DeSt) (a : Nat) : (popCtx s a).store = s.store := rfl
 
-theorem pushCtx_store (s : DeSt) (k : Kind) (a : Nat) : (pushCtx s k a).store = s.store := by
-  unfold pushCtx; split <;> rfl
+theorem pushCtx_store (s : DeSt) (k : Kind) (a : Nat) : (pushCtx s k a).store = s.store := rfl
 
 /-- the anchored case of a weak wrapper on a node `o` (not an alias) -/
 theorem weak_anchored_ok (live : Bool) (k : Kind) (tid : Nat) (o : Out) (s : DeSt) (v : RVal) (e : Out) (s' : DeSt)
@@ -157,13 +155,13 @@ theorem weak_node_ok (onAlias : Ty → Nat → DeSt → DeRes) (live : Bool) (k 
     · rename_i ha
       exact Or.inr ⟨ha, weak_anchored_ok live k tid _ s v e s' h⟩
 
-/-- `current_anchor_id` right after entering the context of an anchored node is that node's id -/
-theorem current_after_push (s : DeSt) (k : Kind) (a : Nat) (ha : a ≠ 0) :
+/-- `current_anchor_id` right after entering the context of a node is that node's own id -/
+theorem current_after_push (s : DeSt) (k : Kind) (a : Nat) (_ha : a ≠ 0) :
     currentAnchorId (pushCtx s k a) k = some a := by
-  simp [currentAnchorId, pushCtx, ha]
+  simp [currentAnchorId, pushCtx]
 
-theorem current_no_push (s : DeSt) (k : Kind) : currentAnchorId (pushCtx s k 0) k = currentAnchorId s k := by
-  simp [pushCtx]
+theorem pop_push (s : DeSt) (k : Kind) (a : Nat) : popCtx (pushCtx s k a) a = s := by
+  simp [popCtx, pushCtx]
 
 /-! ### wrapper-free types: the value is the node without its marks, nothing is allocated or stored -/
 
